@@ -5,7 +5,7 @@
    reported ty L rs = a report of type ty at Loc L is in rs.
 
    The model carries a record of fix flags [fx : fixes] (Model/Patterns.v): [no_fixes] = the code as found,
-   [deployed] = the code of /repo after the repairs fixes/C20-*.diff (all but C20-local-surplus), [all_fixes].
+   [deployed] = the code of /repo after the repairs fixes/C20-*.diff (all of them: = [all_fixes]).
    Part 1: what holds for EVERY variant (so for the code as found and for the repaired code alike) - the theorems of
            round 1, unchanged in content.
    Part 2: what the repairs add: the guards that excluded the defects are gone.
@@ -255,11 +255,19 @@ Proof. exact within_vis_all. Qed.
 Print Assumptions C20_visited_are_nodes.
 
 (* ... and every node of the tree is visited ("at every place"), provided no local declaration has two or more surplus
-   values (C20_unvisited_refuted; no such proviso after C20-local-surplus); bare assignment targets carry no check *)
+   values - a proviso only for the variants WITHOUT C20-local-surplus (C20_unvisited_refuted_before_fix); for the code
+   now in /repo see C20_every_node_visited_deployed below; bare assignment targets carry no check *)
 Theorem C20_every_node_visited_guarded : forall fx root m,
   traversal_ok fx root -> within children_all root m -> ~ target_shape m -> within (children_vis fx) root m.
 Proof. exact visited_complete. Qed.
 Print Assumptions C20_every_node_visited_guarded.
+
+(* the code now in /repo (fixes/C20-local-surplus.diff in): EVERY node is visited, no proviso about local declarations
+   (targets_ok: assignment targets are names or table accesses - always so in an error-free parse) *)
+Theorem C20_every_node_visited_deployed : forall root m,
+  targets_ok root -> within children_all root m -> ~ target_shape m -> within (children_vis deployed) root m.
+Proof. exact visited_complete_deployed. Qed.
+Print Assumptions C20_every_node_visited_deployed.
 
 (* what the property demands for a file = the patterns of all its nodes *)
 Theorem C20_demanded_iff : forall fclose elses b p,
@@ -323,7 +331,7 @@ Theorem C20_spec_local_iff : forall names es l ty L,
 Proof. exact spec_local_iff. Qed.
 Print Assumptions C20_spec_local_iff.
 
-(* [repaired fx]: every repair but C20-local-surplus is in (true of [deployed]).
+(* [repaired fx]: every repair but C20-local-surplus is in (true of [deployed], where that one is in as well).
    One node: its checks are exactly its patterns, under the node's part of the guard *)
 Theorem C20_node_exact : forall fx fclose elses n ty L,
   repaired fx -> node_guard_b fx fclose n = true ->
@@ -334,7 +342,9 @@ Print Assumptions C20_node_exact.
 (* THE FULL STATEMENT, GUARDED: for the repaired code the published reports of a file are exactly the places the patterns
    demand, on every file that passes the boolean guard file_guard_b (PatternsClasses.v):
      no comparison whose two operands are the same but have no internal name (C20_t14_literal_refuted),
-     no local declaration with two or more surplus values (C20_unvisited_refuted),
+     no local declaration with two or more surplus values - ONLY for a variant without C20-local-surplus
+       (C20_unvisited_refuted_before_fix); for [deployed] this clause of the guard is constantly true
+       (C20_deployed_guard_no_local_clause),
      and the sanity of an error-free parse (operands / conditions are no BadExpr and carry a Loc; assignment targets are
      names or table accesses).
    The guard is computed for every case by the correspondence driver (o_guard). *)
@@ -355,6 +365,12 @@ Proof.
 Qed.
 Print Assumptions C20_full_deployed_guarded.
 
+(* the guard of the code now in /repo says nothing about local declarations any more *)
+Theorem C20_deployed_guard_no_local_clause : forall fclose names ls ats es l,
+  node_guard_b deployed fclose (NS (SLocal names ls ats es l)) = true.
+Proof. reflexivity. Qed.
+Print Assumptions C20_deployed_guard_no_local_clause.
+
 (* ================================================================== Part 4: witnesses *)
 Local Open Scope string_scope.
 Ltac witness := eexists; split; [split; vm_compute; reflexivity|vm_compute; repeat split; reflexivity].
@@ -366,12 +382,26 @@ Theorem C20_t14_literal_refuted :
 Proof. witness. Qed.
 Print Assumptions C20_t14_literal_refuted.
 
-(* the surplus values of a local declaration beyond index nNames are never visited (C20-local-surplus is prepared, not
-   deployed: it changes what every pass visits) *)
-Theorem C20_unvisited_refuted :
-  exists o, valid_outcome deployed "local x = 1, 2, a == a" o /\ under_reported o 14 = true /\ o_classes o = [CUnvisited].
+(* REPAIRED (fixes/C20-local-surplus.diff, `continue` instead of `break` in cgLocalVarDeclStat): the surplus values of
+   a local declaration beyond index nNames were never visited by any pass.  [before_surplus] = the code of /repo before
+   that repair (every other repair in): the witness deviates there and no longer for the code now in /repo. *)
+Definition before_surplus : fixes := mkFixes true true true true true true false.
+Theorem C20_unvisited_refuted_before_fix :
+  exists o, valid_outcome before_surplus "local x = 1, 2, a == a" o /\ under_reported o 14 = true /\ o_classes o = [CUnvisited].
 Proof. witness. Qed.
-Print Assumptions C20_unvisited_refuted.
+Print Assumptions C20_unvisited_refuted_before_fix.
+Theorem C20_unvisited_fixed :
+  exists o, valid_outcome deployed "local x = 1, 2, a == a" o /\ agrees o = true /\ List.length (o_model o) = 2%nat /\
+            o_classes o = [].
+Proof. witness. Qed.
+Print Assumptions C20_unvisited_fixed.
+(* a pattern in the LAST of several surplus values, and one nested in a closure there *)
+Example C20_unvisited_deep_regression :
+  (exists o, valid_outcome before_surplus "local x = 1, 2, 3, function() t = {k=1, k=2} end" o /\ under_reported o 5 = true /\
+            o_classes o = [CUnvisited]) /\
+            (exists o, valid_outcome deployed "local x = 1, 2, 3, function() t = {k=1, k=2} end" o /\ agrees o = true /\
+            o_classes o = []).
+Proof. split; witness. Qed.
 
 (* two places with one Loc (the column defects of the lexer, property C04): their reports are de-duplicated *)
 Theorem C20_loc_collision_refuted :
@@ -472,12 +502,6 @@ Example C20_t5_empty_regression :
              List.length (o_model o) = 1%nat /\ o_classes o = []).
 Proof. split; witness. Qed.
 
-(* prepared, not deployed: with C20-local-surplus the surplus values are visited *)
-Example C20_unvisited_all_fixes :
-  exists o, valid_outcome all_fixes "local x = 1, 2, a == a" o /\ agrees o = true /\ List.length (o_model o) = 2%nat /\
-            o_classes o = [].
-Proof. witness. Qed.
-
 (* ================================================================== non-vacuity *)
 (* "once": three equal parameters - the pairwise loop finds three pairs, two reports are published, and they are the two
    later places the pattern demands; same for three equal conditions *)
@@ -495,14 +519,16 @@ Example C20_agreeing_example :
     /\ agrees o = true /\ List.length (o_model o) = 10%nat /\ o_classes o = [].
 Proof. intros fx [<-|[<-|[]]]; witness. Qed.
 
-(* the guard of C20_full_guarded holds on that file, and fails on the two remaining deviations *)
+(* the guard of C20_full_guarded holds on that file, fails on the remaining deviation and failed on surplus values before
+   fixes/C20-local-surplus.diff (no longer) *)
 Example C20_full_guard_example :
   (exists o, valid_outcome deployed
     "local t = { k = 1, k = 2, [a] = f(a.b == a.b, x or true, y and false, z == 0.5) } function g(p, p) if p then p = p elseif (p) then local u, v = 1 u, v = 1, 2, 3 else t = {[1] = nil or true, [1] = 2} end end" o
     /\ o_guard o = true /\ agrees o = true /\ List.length (o_model o) = 12%nat) /\
   (exists o, valid_outcome deployed "x = 1 == 1" o /\ o_guard o = false) /\
-  (exists o, valid_outcome deployed "local x = 1, 2, a == a" o /\ o_guard o = false).
-Proof. split; [|split]; witness. Qed.
+  (exists o, valid_outcome before_surplus "local x = 1, 2, a == a" o /\ o_guard o = false) /\
+  (exists o, valid_outcome deployed "local x = 1, 2, a == a" o /\ o_guard o = true).
+Proof. split; [|split; [|split]]; witness. Qed.
 
 (* the guards are satisfiable by non-trivial nodes *)
 Example C20_fixes_ok_example : fixes_ok no_fixes /\ fixes_ok deployed /\ fixes_ok all_fixes.
